@@ -143,9 +143,9 @@ def texts_generated(quick):
              "OBJECT = o\n OBJECT = o\n  OBJECT = o\n   k = ((1, 2), {3}) <m>\n  END_OBJECT\n END_OBJECT\nEND_OBJECT\n"]
     for t in extra:
         yield "extra", t
-    # every container tree with <= 3 (quick) / 4 nodes, duplicate names forced, every leaf a different value
+    # every container tree with <= 3 (quick) / 5 nodes, duplicate names forced, every leaf a different value
     from ..lib import gen
-    for n in range(1, (3 if quick else 4) + 1):
+    for n in range(1, (3 if quick else 5) + 1):
         for f in gen.forests(n, ["a", "b"], ["g", "a"], [1]):
             counter = [0]
 
